@@ -632,7 +632,11 @@ Verdict check_c(const J& r) {
   else { x.R->con->set_scale(slat, sk); if (!x.R->con->valid()) return finish(v, x); newk0 = x.R->con->k0(); }
   L lk = fabsl(logl(ob.k / R.k0()));
   // SetScale divides by the library's own k at slat, so the accuracy of that k (d/rho, see above) is inherited
-  L kr2 = krel * 2 * (1 + lk) + 2 * tol_xy(c, ob, 0, R.k0()) / ob.rho;
+  // (thorough tier: a SetScale latitude 3e-14 deg = 3 nm from the apex, where the position accuracy exceeds the distance
+  // from the apex and the returned k is undetermined (-1.7e-8 was seen); 1/k is then unbounded.  The relation is only
+  // asserted where the inherited error is < 10 %, and the conditioning term carries a factor 4: 1.5 x the old law seen)
+  L kr2 = krel * 2 * (1 + lk) + 4 * tol_xy(c, ob, 0, R.k0()) / ob.rho;
+  if (!(kr2 < 0.1L)) { v.tag("setscale-at-apex-ill-conditioned"); return finish(v, x); }
   LE(v, fabsl((L)x.lib.k0() / newk0 - 1), kr2, (pn + ": CentralScale after SetScale vs oracle (relative)"));
   if (c.proj != PS) LE(v, fabsl((L)x.lib.lat0() - x.R->lat0()), 2 * 4.5e-14L * fs0(c.f), (pn + ": OriginLatitude after SetScale [deg]"));
   { double X, Y, g0, k; double la = c.proj == PS && !c.northp ? -slat : slat;
